@@ -19,7 +19,7 @@ from ..selftest import Seed
 from . import c04
 
 META = {
-    "technique": "memo-invalidation (effect) analysis, try/except shape of the compiled-first call sites, IR/emit/dispatch table agreement, THIN result-path census of operator implementations against the emitted primitive",
+    "technique": "memo-invalidation (effect) analysis, try/except shape of the compiled-first call sites, IR/emit/dispatch table agreement, THIN result-path census of operator implementations against the emitted primitive, production-guard dominance of every IR tag, order-preservation of the parameter walk",
     "level_text": "Static proof over all call sites, tables and operator implementations: no stale compiled code after rebinding (modulo the recorded node-memo defect), unconditional fallback, IR producer/consumer agreement, and a complete census of interpreter result paths per compilable operator compared with the primitive the backends emit. It enumerates every operator/adverb of the compilable grammar rather than sampling bindings; equality of numeric results is not decided.",
     "level_note": "decides the structural clause below from source; does not decide the behaviour. Trusted: Python operator <-> NumPy ufunc correspondence (+ add, - subtract, * multiply, / divide, ** power, == equal, > greater, < less, unary - negative); np.min/np.max on rank 1 == minimum/maximum.reduce; Python int/float division by zero raises (=> fallback).",
     "explanation": (
@@ -27,7 +27,8 @@ META = {
         "tables are extracted (IR tags built, tags consumed, operator sets, both backends' emit tables, the dyad/monad dispatch tables, the adverb "
         "operator shortcuts) and compared; for each admitted operator the implementing function's return paths are enumerated after stripping lifting "
         "wrappers and inlining helpers (depth 2) and compared with the emitted primitive; differences are matched against a reviewed-equivalent table "
-        "and the known-findings file, anything else is a violation."),
+        "and the known-findings file, anything else is a violation."
+        " R8: every `return (tag, ...)` of the front end must be dominated by the positive admission facts of that tag (exact int/float, backend array, operator-set membership, arity, adverb); the tag->operator-set mapping used by the table comparison is derived from those guards; the parameter walk must return its first-visit list unchanged."),
     "assumptions": ["the numpy backend is the reference for the emitted-primitive comparison; the torch emit table is only diffed as a sibling (values under torch are C08's subject, declared not applicable)"],
 }
 
